@@ -63,6 +63,7 @@ Weight(a, k) == IF a = "A" /\ k \in {"k2", "k3"} THEN 1 ELSE IF a = "B" /\ k \in
 Accept(a) == 2
 SumW(a, S) == FoldSet(LAMBDA k, acc : acc + Weight(a, k), 0, S)
 Rng(s) == {s[i] : i \in DOMAIN s}
+Idx(n) == IF n = 0 THEN <<>> ELSE [i \in 1..n |-> i]
 LastOf(u) == u[Len(u)]
 Count(s, x) == Cardinality({i \in DOMAIN s : s[i] = x})
 BagEq(s, t) == Len(s) = Len(t) /\ \A x \in Rng(s) \cup Rng(t) : Count(s, x) = Count(t, x)
@@ -89,7 +90,8 @@ IdAcct(K, a, uris) == IF ~HasRule(a) THEN TRUE      \* "empty ACL means everyone
 
 (* State.verifyXuperSign *)
 Dedup(s) == FoldLeft(LAMBDA acc, x : IF x \in Rng(acc) THEN acc ELSE Append(acc, x), <<>>, s)
-AddrList(t) == Dedup(<<t.init>> \o [i \in DOMAIN t.auth |-> LastOf(t.auth[i])])
+Lasts(auth) == FoldLeft(LAMBDA acc, u : Append(acc, LastOf(u)), <<>>, auth)
+AddrList(t) == Dedup(<<t.init>> \o Lasts(t.auth))
 XSigOK(K, xs) ==
   /\ xs.dg = "this" /\ xs.pks # <<>>
   /\ CASE xs.kind = "agg" -> Len(xs.pks) >= 2 /\ BagEq(xs.by, xs.pks)
@@ -120,7 +122,7 @@ VerifySigs(K, t) ==
                       IF a \in acc.ver THEN acc
                       ELSE IF SigOK(t.asigs[i], a) THEN [ok |-> TRUE, ver |-> acc.ver \cup {a}]
                       ELSE [ok |-> FALSE, ver |-> {}],
-                 ini, [i \in DOMAIN t.auth |-> i])
+                 ini, Idx(Len(t.auth)))
 
 (* State.verifyUTXOPermission *)
 VerifyUtxo(K, t, ver0) ==
@@ -130,11 +132,11 @@ VerifyUtxo(K, t, ver0) ==
            IF t.ins[i].cj \/ o \in acc.ver THEN acc
            ELSE IF IsAcct(o) /\ HasRule(o) /\ IdAcct(K, o, t.auth) THEN [ok |-> TRUE, ver |-> acc.ver \cup {o}]
            ELSE [ok |-> FALSE, ver |-> acc.ver],
-    [ok |-> TRUE, ver |-> ver0], [i \in DOMAIN t.ins |-> i])
+    [ok |-> TRUE, ver |-> ver0], Idx(Len(t.ins)))
 
 (* State.verifyTxRWSets, as far as the utxo side is concerned: the transient entry ContractUtxo.Inputs  *)
 (* (the inputs with cj) must be exactly what re-executing the carried requests selects.                 *)
-CJOwners(t) == SelectSeq([i \in DOMAIN t.ins |-> IF t.ins[i].cj THEN t.ins[i].own ELSE "-"], LAMBDA x : x # "-")
+CJOwners(t) == FoldLeft(LAMBDA acc, x : IF x.cj THEN Append(acc, x.own) ELSE acc, <<>>, t.ins)
 Reproduced(t) == IF t.ctr = "pay" THEN CJOwners(t) = <<"C">> ELSE CJOwners(t) = <<>>
 
 Immediate(K, t) ==
@@ -169,3 +171,414 @@ Authorised(t) ==
        \/ o \in vs \cap (Listed(t) \cup {t.isigs[j].pk : j \in DOMAIN t.isigs})
        \/ IsAcct(o) /\ RuleMet(o, vs)                       \* ... or through its account's rule
        \/ t.ins[i].cj /\ o = "C" /\ t.ctr = "pay" /\ Reproduced(t)   \* ... or the carried contract code performs the spend
+
+-----------------------------------------------------------------------------
+(* Forms.  isl = the keys whose signatures make up initiator_signs, auth = the AuthRequire URIs,  *)
+(* pks = XuperSign public keys (aggregated forms).                                                 *)
+U1(k) == <<k>>
+UA(a, k) == <<a, k>>
+FormDef ==
+  [addr   |-> [init |-> "k1", isl |-> <<"k1">>,       auth |-> <<>>,                              pks |-> <<>>],
+   self   |-> [init |-> "k1", isl |-> <<"k1">>,       auth |-> <<U1("k1"), U1("k2")>>,            pks |-> <<>>],
+   multi  |-> [init |-> "k1", isl |-> <<"k1">>,       auth |-> <<U1("k2"), U1("k3")>>,            pks |-> <<>>],
+   multiA |-> [init |-> "k1", isl |-> <<"k1">>,       auth |-> <<UA("A", "k2"), UA("A", "k3")>>,  pks |-> <<>>],
+   acct   |-> [init |-> "A",  isl |-> <<"k2", "k3">>, auth |-> <<UA("A", "k2"), UA("A", "k3")>>,  pks |-> <<>>],
+   acctI  |-> [init |-> "A",  isl |-> <<"k2", "k3">>, auth |-> <<>>,                              pks |-> <<>>],
+   ghost  |-> [init |-> "G",  isl |-> <<"k1">>,       auth |-> <<>>,                              pks |-> <<>>],
+   xs1    |-> [init |-> "k1", isl |-> <<>>,           auth |-> <<>>,                              pks |-> <<"k1">>],
+   xs3    |-> [init |-> "k1", isl |-> <<>>,           auth |-> <<U1("k2"), U1("k3")>>,            pks |-> <<"k1", "k2", "k3">>],
+   xsA    |-> [init |-> "k1", isl |-> <<>>,           auth |-> <<UA("A", "k2"), UA("A", "k3")>>,  pks |-> <<"k1", "k2", "k3">>]]
+SigForms == {"addr", "self", "multi", "multiA", "acct", "acctI", "ghost"}
+XSForms  == {"xs1", "xs3", "xsA"}
+Forms == SigForms \cup XSForms
+HonestForms == Forms \ {"ghost"}
+Slots(f) == FormDef[f].isl \o Lasts(FormDef[f].auth)
+
+(* per-slot signature statuses *)
+Statuses == <<"valid", "invalid", "forged", "otherkey", "othertx", "missing">>
+SigOf(st, k) == CASE st = "valid"    -> Sig(k, k, "this")
+                  [] st = "invalid"  -> Sig(k, "junk", "this")       \* corrupted signature bytes
+                  [] st = "forged"   -> Sig(k, "kx", "this")         \* k's public key, signed with another key
+                  [] st = "otherkey" -> Sig("kx", "kx", "this")      \* another key signs and shows its own public key
+                  [] st = "othertx"  -> Sig(k, k, "other")           \* k's valid signature for another transaction
+                  [] st = "missing"  -> Sig(k, k, "this")            \* (dropped from the list)
+Keep(f, sg, lo, hi) == FoldLeft(LAMBDA acc, i : IF i < lo \/ i > hi \/ sg[i] = "missing" THEN acc ELSE Append(acc, SigOf(sg[i], Slots(f)[i])),
+                                <<>>, Idx(Len(sg)))
+(* all status vectors of length n with at most d non-valid entries *)
+RECURSIVE Vecs(_, _)
+Vecs(n, d) == IF n = 0 THEN {<<>>}
+              ELSE {Append(v, "valid") : v \in Vecs(n - 1, d)}
+                   \cup (IF d = 0 THEN {} ELSE {Append(v, Statuses[j]) : v \in Vecs(n - 1, d - 1), j \in 2..Len(Statuses)})
+AllValid(n) == [i \in 1..n |-> "valid"]
+
+(* aggregated-signature statuses: public-key list x signature *)
+PkStatuses == {"ok", "swap", "alien", "short", "long"}
+PksOf(p, st) == CASE st = "ok" -> p
+                  [] st = "swap" -> IF Len(p) >= 2 THEN <<p[2], p[1]>> \o SubSeq(p, 3, Len(p)) ELSE p
+                  [] st = "alien" -> [p EXCEPT ![Len(p)] = "kx"]
+                  [] st = "short" -> SubSeq(p, 1, Len(p) - 1)
+                  [] st = "long" -> Append(p, "kx")
+XSigStatuses == {"honest", "other", "aggsub", "ecdsa1", "ecdsa1other", "ecdsa2", "xecdsa1", "schnorr1", "ring1", "ring2", "junk", "empty"}
+HonestKind(p) == IF Len(p) = 1 THEN "ecdsa" ELSE "agg"
+XSOf(p, pkst, sst) ==
+  LET q == PksOf(p, pkst)
+      second == IF Len(p) >= 2 THEN p[2] ELSE "kx" IN
+  CASE sst = "honest"      -> XS(q, HonestKind(p), p, "this")
+    [] sst = "other"       -> XS(q, HonestKind(p), p, "other")
+    [] sst = "aggsub"      -> XS(q, "agg", [p EXCEPT ![Len(p)] = p[1]] \o (IF Len(p) = 1 THEN <<p[1]>> ELSE <<>>), "this")
+    [] sst = "ecdsa1"      -> XS(q, "ecdsa", <<p[1]>>, "this")
+    [] sst = "ecdsa1other" -> XS(q, "ecdsa", <<p[1]>>, "other")
+    [] sst = "ecdsa2"      -> XS(q, "ecdsa", <<second>>, "this")
+    [] sst = "xecdsa1"     -> XS(q, "xecdsa", <<p[1]>>, "this")
+    [] sst = "schnorr1"    -> XS(q, "schnorr", <<p[1]>>, "this")
+    [] sst = "ring1"       -> XS(q, "ring", <<p[1]>>, "this")
+    [] sst = "ring2"       -> XS(q, "ring", <<second>>, "this")
+    [] sst = "junk"        -> XS(q, "junk", <<>>, "this")
+    [] sst = "empty"       -> XS(q, "empty", <<>>, "this")
+(* a ring needs the signer inside the ring and at least three members (the library's minimum) *)
+XSBuildable(xs) == xs.kind = "ring" => (Len(xs.pks) >= 3 /\ xs.by[1] \in Rng(xs.pks))
+
+(* owner configurations: inputs and the contract part *)
+OC(ins, ctr) == [ins |-> ins, ctr |-> ctr]
+BasicOwners == {OC(<<>>, "none"), OC(<<In("k1")>>, "none"), OC(<<In("kx")>>, "none"), OC(<<In("A")>>, "none")}
+AllOwners == BasicOwners \cup
+  {OC(<<In(o)>>, "none") : o \in {"k2", "k3", "B", "G", "C"}} \cup
+  {OC(<<In("k1"), In("kx")>>, "none"), OC(<<In("kx"), In("k1")>>, "none"), OC(<<In("k1"), In("A")>>, "none"),
+   OC(<<In("A"), In("A")>>, "none"), OC(<<In("k2"), In("k3")>>, "none"), OC(<<In("A"), In("B")>>, "none"),
+   OC(<<In("k1")>>, "vprog"), OC(<<In("kx")>>, "vprog"), OC(<<>>, "vprog"),
+   OC(<<InCJ("C")>>, "pay"),                      \* the contract pays out of its own funds
+   OC(<<InCJ("C"), In("k1")>>, "pay"),
+   OC(<<InCJ("kx")>>, "none"),                    \* a forged transient entry without request
+   OC(<<InCJ("kx")>>, "vprog"),                   \* ... with an unrelated request
+   OC(<<InCJ("C"), InCJ("kx")>>, "pay"),          \* ... beside the real contract spend
+   OC(<<InCJ("kx"), InCJ("C")>>, "pay"),
+   OC(<<InCJ("C"), In("kx")>>, "pay"),
+   OC(<<In("C")>>, "pay"),                        \* the contract's output without justification
+   OC(<<InCJ("C"), InCJ("C")>>, "pay"),
+   OC(<<InCJ("k1")>>, "none"),
+   OC(<<InMK("k1")>>, "none"), OC(<<InMK("kx")>>, "none"), OC(<<In("k1"), InMK("kx")>>, "none")}
+
+BuildSig(v, f, sg, id, oc) ==
+  LET d == FormDef[f]
+      ni == Len(d.isl) IN
+  [ver |-> v, init |-> d.init, isigs |-> Keep(f, sg, 1, ni), auth |-> d.auth, asigs |-> Keep(f, sg, ni + 1, Len(sg)),
+   xs |-> NoXS, id |-> id, ins |-> oc.ins, ctr |-> oc.ctr, rich |-> FALSE]
+BuildXS(v, f, pkst, sst, id, oc) ==
+  LET d == FormDef[f] IN
+  [ver |-> v, init |-> d.init, isigs |-> <<>>, auth |-> d.auth, asigs |-> <<>>,
+   xs |-> XSOf(d.pks, pkst, sst), id |-> id, ins |-> oc.ins, ctr |-> oc.ctr, rich |-> FALSE]
+
+(* what an honest sender of each form may spend (as the code requires it) *)
+HonestOwnerSets ==
+  [addr |-> {"k1"}, self |-> {"k1", "k2"}, multi |-> {"k1", "k2", "k3"}, multiA |-> {"k1", "k2", "k3", "A"},
+   acct |-> {"k2", "k3", "A"}, acctI |-> {"k2", "k3"}, xs1 |-> {"k1"}, xs3 |-> {"k1", "k2", "k3"}, xsA |-> {"k1", "k2", "k3", "A"}]
+HonestOC(f, oc) == /\ \A i \in DOMAIN oc.ins : ~oc.ins[i].mk /\
+                        IF oc.ins[i].cj THEN oc.ins[i].own = "C" /\ oc.ctr = "pay" ELSE oc.ins[i].own \in HonestOwnerSets[f]
+                   /\ (oc.ctr = "pay" => Cardinality({i \in DOMAIN oc.ins : oc.ins[i].cj}) = 1)
+HonestTx(v, f, oc) == IF f \in SigForms THEN BuildSig(v, f, AllValid(Len(Slots(f))), "ok", oc)
+                      ELSE BuildXS(v, f, "ok", "honest", "ok", oc)
+Honest(t) == /\ t.id = "ok" /\ (\A i \in DOMAIN t.isigs : SelfValid(t.isigs[i])) /\ (\A i \in DOMAIN t.asigs : SelfValid(t.asigs[i]))   \* (cheap guards)
+             /\ (t.xs.on => t.xs.dg = "this" /\ t.xs.kind \in {"agg", "ecdsa"})
+             /\ \E f \in {g \in HonestForms : FormDef[g].init = t.init /\ FormDef[g].auth = t.auth} :
+                  LET oc == OC(t.ins, t.ctr) IN oc \in AllOwners /\ HonestOC(f, oc) /\ [t EXCEPT !.rich = FALSE] = HonestTx(t.ver, f, oc)
+
+OwnersFor(honestVec) == IF FullOwners \/ honestVec THEN AllOwners ELSE BasicOwners
+SigCasesOf(f) == UNION {{BuildSig(v, f, sg, id, oc) : v \in 1..3, id \in {"ok", "stale"}, oc \in OwnersFor(sg = AllValid(Len(sg)))}
+                        : sg \in Vecs(Len(Slots(f)), MaxDev)}
+SigCases == UNION {SigCasesOf(f) : f \in SigForms}
+XSCasesOf(f) == UNION {{BuildXS(v, f, ps[1], ps[2], id, oc) : v \in 1..3, id \in {"ok", "stale"}, oc \in OwnersFor(ps = <<"ok", "honest">>)}
+                       : ps \in {q \in PkStatuses \X XSigStatuses : XSBuildable(XSOf(FormDef[f].pks, q[1], q[2]))}}
+XSCases == UNION {XSCasesOf(f) : f \in XSForms}
+Cases == SigCases \cup XSCases
+
+-----------------------------------------------------------------------------
+(* (b) The field table: every field of the Transaction schema reachable by reflection, with the class  *)
+(* the property demands.  The Go driver walks the real schema: a field missing here (or a stale entry, *)
+(* or another kind) makes the check exit 2.                                                            *)
+(*   digest : semantic content - must be bound by the signing digest (and hence by the id)             *)
+(*   sig    : signatures - bound by the id only                                                        *)
+(*   id     : the claimed id                                                                           *)
+(*   none   : node-local annotations (block id, reception time, the regulator's annotation)            *)
+(* kind: bytes string int bool msg (singular message) rmsg rstr rbytes (repeated) map                  *)
+FT(m, f, kind, class, sub) == [name |-> m \o "." \o f, msg |-> m, field |-> f, kind |-> kind, class |-> class, sub |-> sub]
+FieldTable == <<
+  FT("Transaction", "txid", "bytes", "id", ""),
+  FT("Transaction", "blockid", "bytes", "none", ""),
+  FT("Transaction", "tx_inputs", "rmsg", "digest", "TxInput"),
+  FT("Transaction", "tx_outputs", "rmsg", "digest", "TxOutput"),
+  FT("Transaction", "desc", "bytes", "digest", ""),
+  FT("Transaction", "coinbase", "bool", "digest", ""),
+  FT("Transaction", "nonce", "string", "digest", ""),
+  FT("Transaction", "timestamp", "int", "digest", ""),
+  FT("Transaction", "version", "int", "digest", ""),
+  FT("Transaction", "autogen", "bool", "digest", ""),
+  FT("Transaction", "tx_inputs_ext", "rmsg", "digest", "TxInputExt"),
+  FT("Transaction", "tx_outputs_ext", "rmsg", "digest", "TxOutputExt"),
+  FT("Transaction", "contract_requests", "rmsg", "digest", "InvokeRequest"),
+  FT("Transaction", "initiator", "string", "digest", ""),
+  FT("Transaction", "auth_require", "rstr", "digest", ""),
+  FT("Transaction", "initiator_signs", "rmsg", "sig", "SignatureInfo"),
+  FT("Transaction", "auth_require_signs", "rmsg", "sig", "SignatureInfo"),
+  FT("Transaction", "received_timestamp", "int", "none", ""),
+  FT("Transaction", "xuper_sign", "msg", "sig", "XuperSignature"),
+  FT("Transaction", "modify_block", "msg", "none", "ModifyBlock"),
+  FT("Transaction", "HD_info", "msg", "digest", "HDInfo"),
+  FT("TxInput", "ref_txid", "bytes", "digest", ""),
+  FT("TxInput", "ref_offset", "int", "digest", ""),
+  FT("TxInput", "from_addr", "bytes", "digest", ""),
+  FT("TxInput", "amount", "bytes", "digest", ""),
+  FT("TxInput", "frozen_height", "int", "digest", ""),
+  FT("TxOutput", "amount", "bytes", "digest", ""),
+  FT("TxOutput", "to_addr", "bytes", "digest", ""),
+  FT("TxOutput", "frozen_height", "int", "digest", ""),
+  FT("TxInputExt", "bucket", "string", "digest", ""),
+  FT("TxInputExt", "key", "bytes", "digest", ""),
+  FT("TxInputExt", "ref_txid", "bytes", "digest", ""),
+  FT("TxInputExt", "ref_offset", "int", "digest", ""),
+  FT("TxOutputExt", "bucket", "string", "digest", ""),
+  FT("TxOutputExt", "key", "bytes", "digest", ""),
+  FT("TxOutputExt", "value", "bytes", "digest", ""),
+  FT("InvokeRequest", "module_name", "string", "digest", ""),
+  FT("InvokeRequest", "contract_name", "string", "digest", ""),
+  FT("InvokeRequest", "method_name", "string", "digest", ""),
+  FT("InvokeRequest", "args", "map", "digest", ""),
+  FT("InvokeRequest", "resource_limits", "rmsg", "digest", "ResourceLimit"),
+  FT("InvokeRequest", "amount", "string", "digest", ""),
+  FT("ResourceLimit", "type", "int", "digest", ""),
+  FT("ResourceLimit", "limit", "int", "digest", ""),
+  FT("SignatureInfo", "PublicKey", "string", "sig", ""),
+  FT("SignatureInfo", "Sign", "bytes", "sig", ""),
+  FT("XuperSignature", "public_keys", "rbytes", "sig", ""),
+  FT("XuperSignature", "signature", "bytes", "sig", ""),
+  FT("ModifyBlock", "effective_txid", "string", "none", ""),
+  FT("ModifyBlock", "marked", "bool", "digest", ""),       \* switches processing (doTxInternal, verifyMarked): semantic
+  FT("ModifyBlock", "effective_height", "int", "none", ""),
+  FT("ModifyBlock", "public_key", "string", "none", ""),
+  FT("ModifyBlock", "sign", "string", "none", ""),
+  FT("HDInfo", "hd_public_key", "bytes", "digest", ""),
+  FT("HDInfo", "original_hash", "bytes", "digest", "") >>
+FieldNames == {FieldTable[i].name : i \in DOMAIN FieldTable}
+FieldOf(n) == FieldTable[CHOOSE i \in DOMAIN FieldTable : FieldTable[i].name = n]
+FieldsOfMsg(m) == {FieldTable[i].name : i \in {j \in DOMAIN FieldTable : FieldTable[j].msg = m}}
+
+-----------------------------------------------------------------------------
+(* (c) The encoders as token grammars.  A section is a list (one item per element) or single; a slot   *)
+(* is one field of an item: ty = token type, opt = the code emits it only when non-empty, cov = further *)
+(* fields bound by the token (self-describing JSON values, nested lists).                               *)
+(*   v3   : "i" 8-byte integer, "l" length-prefixed bytes, "m" map (count, sorted pairs), "r" nested    *)
+(*          (count, pairs of integers); lists are preceded by their count                               *)
+(*   v1/2 : "s" JSON string, "n" number, "b" boolean, "j" array / object / null; no counts              *)
+SL(f, ty) == [f |-> f, ty |-> ty, opt |-> FALSE, cov |-> {}]
+SO(f, ty) == [f |-> f, ty |-> ty, opt |-> TRUE, cov |-> {}]
+SC(f, ty, opt, cov) == [f |-> f, ty |-> ty, opt |-> opt, cov |-> cov]
+Sec(name, list, f, signs, slots) == [name |-> name, list |-> list, f |-> f, signs |-> signs, slots |-> slots]
+SigSlots3 == <<SL("SignatureInfo.PublicKey", "l"), SL("SignatureInfo.Sign", "l")>>
+MFlag(K, ty) == IF K.mflag THEN <<>> ELSE <<Sec("mflag", FALSE, "", FALSE, <<SL("ModifyBlock.marked", ty)>>)>>
+Gram3(K) == <<
+  Sec("tx_inputs", TRUE, "Transaction.tx_inputs", FALSE,
+      <<SL("TxInput.ref_txid", "l"), SL("TxInput.ref_offset", "i"), SL("TxInput.from_addr", "l"), SL("TxInput.amount", "l"), SL("TxInput.frozen_height", "i")>>),
+  Sec("tx_outputs", TRUE, "Transaction.tx_outputs", FALSE,
+      <<SL("TxOutput.amount", "l"), SL("TxOutput.to_addr", "l"), SL("TxOutput.frozen_height", "i")>>),
+  Sec("head", FALSE, "", FALSE,
+      <<SL("Transaction.desc", "l"), SL("Transaction.coinbase", "i"), SL("Transaction.nonce", "l"), SL("Transaction.timestamp", "i"),
+        SL("Transaction.version", "i"), SL("Transaction.autogen", "i")>>),
+  Sec("tx_inputs_ext", TRUE, "Transaction.tx_inputs_ext", FALSE,
+      <<SL("TxInputExt.bucket", "l"), SL("TxInputExt.key", "l"), SL("TxInputExt.ref_txid", "l"), SL("TxInputExt.ref_offset", "i")>>),
+  Sec("tx_outputs_ext", TRUE, "Transaction.tx_outputs_ext", FALSE,
+      <<SL("TxOutputExt.bucket", "l"), SL("TxOutputExt.key", "l"), SL("TxOutputExt.value", "l")>>),
+  Sec("contract_requests", TRUE, "Transaction.contract_requests", FALSE,
+      <<SL("InvokeRequest.module_name", "l"), SL("InvokeRequest.contract_name", "l"), SL("InvokeRequest.method_name", "l"),
+        SL("InvokeRequest.args", "m"), SC("InvokeRequest.resource_limits", "r", FALSE, {"ResourceLimit.type", "ResourceLimit.limit"}),
+        SL("InvokeRequest.amount", "l")>>),
+  Sec("initiator", FALSE, "", FALSE, <<SL("Transaction.initiator", "l")>>),
+  Sec("auth_require", TRUE, "Transaction.auth_require", FALSE, <<SL("Transaction.auth_require", "l")>>),
+  Sec("initiator_signs", TRUE, "Transaction.initiator_signs", TRUE, SigSlots3),
+  Sec("auth_require_signs", TRUE, "Transaction.auth_require_signs", TRUE, SigSlots3),
+  Sec("xs_public_keys", TRUE, "XuperSignature.public_keys", TRUE, <<SC("XuperSignature.public_keys", "l", FALSE, {"Transaction.xuper_sign"})>>),
+  Sec("xs_signature", FALSE, "Transaction.xuper_sign", TRUE, <<SC("XuperSignature.signature", "l", FALSE, {"Transaction.xuper_sign"})>>),
+  Sec("hd", FALSE, "Transaction.HD_info", FALSE, <<SC("HDInfo.hd_public_key", "l", FALSE, {"Transaction.HD_info"}), SL("HDInfo.original_hash", "l")>>) >>
+  \o MFlag(K, "i")
+Gram12(K, v) == <<
+  Sec("tx_inputs", TRUE, "Transaction.tx_inputs", FALSE,
+      <<SO("TxInput.ref_txid", "s"), SL("TxInput.ref_offset", "n"), SO("TxInput.from_addr", "s"), SO("TxInput.amount", "s"), SL("TxInput.frozen_height", "n")>>),
+  Sec("tx_outputs", FALSE, "", FALSE, <<SC("Transaction.tx_outputs", "j", FALSE, FieldsOfMsg("TxOutput"))>>),
+  Sec("head", FALSE, "", FALSE,
+      <<SO("Transaction.desc", "s"), SL("Transaction.nonce", "s"), SL("Transaction.timestamp", "n"), SL("Transaction.version", "n")>>),
+  Sec("tx_inputs_ext", TRUE, "Transaction.tx_inputs_ext", FALSE,
+      <<SL("TxInputExt.bucket", "s"), SO("TxInputExt.key", "s"), SO("TxInputExt.ref_txid", "s"), SL("TxInputExt.ref_offset", "n")>>),
+  Sec("tx_outputs_ext", TRUE, "Transaction.tx_outputs_ext", FALSE,
+      <<SL("TxOutputExt.bucket", "s"), SO("TxOutputExt.key", "s"), SO("TxOutputExt.value", "s")>>),
+  Sec("contract_requests", FALSE, "", FALSE,
+      <<SC("Transaction.contract_requests", "j", FALSE, FieldsOfMsg("InvokeRequest") \cup FieldsOfMsg("ResourceLimit"))>>),
+  Sec("initiator", FALSE, "", FALSE, <<SL("Transaction.initiator", "s")>>),
+  Sec("auth_require", FALSE, "", FALSE, <<SL("Transaction.auth_require", "j")>>),
+  Sec("initiator_signs", FALSE, "", TRUE, <<SC("Transaction.initiator_signs", "j", FALSE, FieldsOfMsg("SignatureInfo"))>>),
+  Sec("auth_require_signs", FALSE, "", TRUE, <<SC("Transaction.auth_require_signs", "j", FALSE, FieldsOfMsg("SignatureInfo"))>>),
+  Sec("xuper_sign", FALSE, "", TRUE, <<SC("Transaction.xuper_sign", "j", TRUE, FieldsOfMsg("XuperSignature"))>>),
+  Sec("flags", FALSE, "", FALSE, <<SL("Transaction.coinbase", "b"), SL("Transaction.autogen", "b")>>) >>
+  \o (IF v = 1 /\ K.v1hd THEN <<>> ELSE <<Sec("hd", FALSE, "", FALSE, <<SC("Transaction.HD_info", "j", FALSE, FieldsOfMsg("HDInfo"))>>)>>)
+  \o MFlag(K, "b")
+Gram(K, v) == IF v = 3 THEN Gram3(K) ELSE Gram12(K, v)
+Counted(K, v) == v = 3 \/ ~K.omit                  \* lists are preceded by their count
+Omits(K, v, slot) == v # 3 /\ K.omit /\ slot.opt    \* the slot is left out when empty
+
+(* what a pre-image binds: derived from the grammar *)
+Bound(K, v, signs) ==
+  UNION {({s.f} \cup (IF s.list THEN {s.f} ELSE {})) \cup UNION {{sl.f} \cup sl.cov : sl \in Rng(s.slots)}
+         : s \in {x \in Rng(Gram(K, v)) : signs \/ ~x.signs}}
+Coverage(K, v, f) == IF f \in Bound(K, v, FALSE) THEN "digest" ELSE IF f \in Bound(K, v, TRUE) THEN "idonly" ELSE "none"
+CoverageWanted(f) == LET c == FieldOf(f).class IN IF c = "digest" THEN "digest" ELSE IF c = "sig" THEN "idonly" ELSE "none"
+
+(* token sequences.  An item pattern is a 0/1 sequence over the slots: 1 = the field is non-empty. *)
+Flex(ty) == ty \in {"l", "s", "j"}
+ItemPats(sec) == {p \in [1..Len(sec.slots) -> {0, 1}] : \A i \in 1..Len(sec.slots) : ~Flex(sec.slots[i].ty) => p[i] = 1}
+SlotTok(K, v, slot, p) == IF p = 1 THEN <<IF Flex(slot.ty) THEN slot.ty \o "+" ELSE slot.ty>>
+                          ELSE IF Omits(K, v, slot) THEN <<>> ELSE <<slot.ty \o "0">>
+ItemToks(K, v, sec, pat) == FoldLeft(LAMBDA acc, i : acc \o SlotTok(K, v, sec.slots[i], pat[i]), <<>>, Idx(Len(sec.slots)))
+SecToks(K, v, sec, items) ==
+  (IF sec.list /\ Counted(K, v) THEN <<"c" \o ToString(Len(items))>> ELSE <<>>)
+  \o FoldLeft(LAMBDA acc, it : acc \o ItemToks(K, v, sec, it), <<>>, items)
+SecStructs(sec, n) == IF sec.list THEN UNION {[1..k -> ItemPats(sec)] : k \in 0..n} ELSE [1..1 -> ItemPats(sec)]
+SecByName(K, v, name) == LET g == Gram(K, v) IN g[CHOOSE i \in DOMAIN g : g[i].name = name]
+TxToks(K, v, signs, st) ==      \* st: record section name -> item patterns
+  FoldLeft(LAMBDA acc, sec : IF sec.signs /\ ~signs THEN acc ELSE acc \o SecToks(K, v, sec, st[sec.name]), <<>>, Gram(K, v))
+
+(* injectivity inside a section and across the boundary of consecutive sections *)
+SecInjective(K, v, sec, n) ==
+  LET S == SecStructs(sec, n) IN \A a, b \in S : SecToks(K, v, sec, a) = SecToks(K, v, sec, b) => a = b
+BoundaryInjective(K, v, s1, s2, n) ==
+  LET A == SecStructs(s1, n)
+      B == SecStructs(s2, n)
+      T == {<<a, b>> : a \in A, b \in B}
+      tok(p) == SecToks(K, v, s1, p[1]) \o SecToks(K, v, s2, p[2]) IN
+  Cardinality({tok(p) : p \in T}) = Cardinality(T)
+DigestSecs(K, v) == SelectSeq(Gram(K, v), LAMBDA s : ~s.signs)
+GrammarInjective(K, v) ==
+  /\ \A s \in Rng(Gram(K, v)) : SecInjective(K, v, s, 2)
+  /\ \A g \in {DigestSecs(K, v), Gram(K, v)} : \A i \in 1..(Len(g) - 1) : BoundaryInjective(K, v, g[i], g[i + 1], IF g[i].list /\ g[i + 1].list THEN 2 ELSE 1)
+(* the ambiguous structure pairs of a section (what TLC hands to the driver for reproduction) *)
+AmbPairs(K, v, sec, n) ==
+  LET S == SecStructs(sec, n) IN {<<a, b>> \in S \X S : a # b /\ SecToks(K, v, sec, a) = SecToks(K, v, sec, b)}
+
+-----------------------------------------------------------------------------
+(* (b) Single-field mutations of an accepted transaction.  m = [f, loc, i, var, st]: field, the          *)
+(* Transaction field that holds the message (""; the transaction itself), element index (0: not          *)
+(* repeated), variation, and what the mutator recomputes afterwards ("fixid": the id - anybody can).     *)
+Mu(f, loc, i, var, st) == [f |-> f, loc |-> loc, i |-> i, var |-> var, st |-> st]
+NoMut == Mu("", "", 0, "none", "none")
+LocsOf(msg) == CASE msg = "Transaction" -> {""}
+                 [] msg = "TxInput" -> {"tx_inputs"}
+                 [] msg = "TxOutput" -> {"tx_outputs"}
+                 [] msg = "TxInputExt" -> {"tx_inputs_ext"}
+                 [] msg = "TxOutputExt" -> {"tx_outputs_ext"}
+                 [] msg = "InvokeRequest" -> {"contract_requests"}
+                 [] msg = "ResourceLimit" -> {"contract_requests.resource_limits"}
+                 [] msg = "SignatureInfo" -> {"initiator_signs", "auth_require_signs"}
+                 [] msg = "XuperSignature" -> {"xuper_sign"}
+                 [] msg = "ModifyBlock" -> {"modify_block"}
+                 [] msg = "HDInfo" -> {"HD_info"}
+Repeated(loc) == loc \notin {"", "xuper_sign", "modify_block", "HD_info"}
+VarsOf(kind) == CASE kind \in {"bytes", "string"} -> {"flip", "clear", "append"}
+                  [] kind = "int" -> {"inc"}
+                  [] kind = "bool" -> {"flip"}
+                  [] kind \in {"rmsg", "rstr", "rbytes"} -> {"drop", "dup", "swap", "add"}
+                  [] kind = "msg" -> {"nil"}
+                  [] kind = "map" -> {"addkey", "delkey", "chval"}
+Muts == UNION {{Mu(FieldTable[k].name, loc, i, var, st) :
+                  loc \in LocsOf(FieldTable[k].msg), i \in 0..2, var \in VarsOf(FieldTable[k].kind), st \in {"none", "fixid"}}
+               : k \in DOMAIN FieldTable}
+MutsFor(t) == {m \in Muts : /\ (Repeated(m.loc) <=> m.i >= 1)
+                            /\ (m.loc = "initiator_signs" => m.i <= Len(t.isigs))
+                            /\ (m.loc = "auth_require_signs" => m.i <= Len(t.asigs))
+                            /\ (m.loc = "xuper_sign" \/ m.f = "Transaction.xuper_sign" => t.xs.on)
+                            /\ ~(m.f = "Transaction.txid" /\ m.st = "fixid")}
+
+Stale(sigs) == [i \in DOMAIN sigs |-> IF sigs[i].dg = "this" THEN [sigs[i] EXCEPT !.dg = "other"] ELSE sigs[i]]
+ListOp(s, var, new) == CASE var = "drop" -> IF s = <<>> THEN s ELSE SubSeq(s, 1, Len(s) - 1)
+                         [] var = "dup" -> IF s = <<>> THEN s ELSE Append(s, s[Len(s)])
+                         [] var = "swap" -> IF Len(s) < 2 THEN s ELSE <<s[2], s[1]>> \o SubSeq(s, 3, Len(s))
+                         [] var = "add" -> Append(s, new)
+                         [] OTHER -> s
+MutTx(K, t, m) ==
+  LET cov == IF m.f = "Transaction.txid" THEN "id" ELSE Coverage(K, t.ver, m.f)
+      nid == IF m.st = "fixid" THEN "ok" ELSE "stale"
+      junk == Sig("kx", "junk", "this") IN
+  CASE cov = "none" -> t
+    [] cov = "id" -> [t EXCEPT !.id = "stale"]
+    [] cov = "digest" -> [t EXCEPT !.isigs = Stale(@), !.asigs = Stale(@), !.xs.dg = "other", !.id = nid]
+    [] cov = "idonly" ->
+        [(CASE m.f \in {"SignatureInfo.PublicKey", "SignatureInfo.Sign"} ->
+                 LET brk(s) == Sig(IF m.f = "SignatureInfo.PublicKey" THEN "bad" ELSE s.pk, "junk", s.dg) IN
+                 \* bytes appended to a DER signature are ignored by the decoder: the same (r, s), the same signer
+                 IF m.f = "SignatureInfo.Sign" /\ m.var = "append" THEN t
+                 ELSE IF m.loc = "initiator_signs" THEN [t EXCEPT !.isigs[m.i] = brk(@)] ELSE [t EXCEPT !.asigs[m.i] = brk(@)]
+            [] m.f = "Transaction.initiator_signs" -> [t EXCEPT !.isigs = ListOp(@, m.var, junk)]
+            [] m.f = "Transaction.auth_require_signs" -> [t EXCEPT !.asigs = ListOp(@, m.var, junk)]
+            [] m.f = "Transaction.xuper_sign" -> [t EXCEPT !.xs = NoXS]
+            [] m.f = "XuperSignature.public_keys" -> [t EXCEPT !.xs.pks = ListOp(@, m.var, "kx")]
+            [] m.f = "XuperSignature.signature" -> [t EXCEPT !.xs.kind = "junk"]
+            [] OTHER -> t) EXCEPT !.id = nid]
+
+(* Strict where the property speaks (DESIGN R2): an unauthorised transaction must be refused, an honest  *)
+(* one accepted, anything else may go either way.  ACTUAL additionally allows what the transcription of *)
+(* the code with the enabled deviations answers where that differs from the IDEAL transcription.        *)
+AllowedIdeal(t) == IF ~Authorised(t) THEN {"rej"} ELSE IF Honest(t) THEN {"ok"} ELSE {"ok", "rej"}
+AllowedK(K, t) == AllowedIdeal(t) \cup (IF VerifyCode(K, t) # VerifyCode(K0, t) THEN {VerifyCode(K, t)} ELSE {})
+MutAllowedK(K, t, m) == IF m.f # "Transaction.txid" /\ Coverage(K, t.ver, m.f) = "none" THEN {"ok", "rej"} ELSE AllowedK(K, MutTx(K, t, m))
+Flags == DOMAIN K0
+DevCase(K, t, res) == {KFName[g] : g \in {h \in Flags : K[h] /\ res \in AllowedK(Only(h), t)}}
+DevMut(K, t, m, res) == {KFName[g] : g \in {h \in Flags : K[h] /\ res \in MutAllowedK(Only(h), t, m)}}
+
+(* rich bases of part (b): every field of the schema carries a value *)
+RichOC == OC(<<In("k1"), In("k2")>>, "vprog")
+RichBases == {[HonestTx(v, f, RichOC) EXCEPT !.rich = TRUE] : v \in 1..3, f \in {"multi", "xs3"}}
+
+-----------------------------------------------------------------------------
+T0 == BuildSig(3, "addr", <<"valid">>, "ok", OC(<<>>, "none"))
+Init == phase = "init" /\ tx = T0 /\ orig = T0 /\ mut = NoMut /\ verdict = "-" /\ hist = <<>>
+Reset == phase' = "init" /\ tx' = T0 /\ orig' = T0 /\ mut' = NoMut /\ verdict' = "-" /\ hist' = <<>>
+
+Build(t) == /\ phase = "init"
+            /\ tx' = t /\ orig' = t /\ phase' = "built" /\ hist' = Append(hist, [op |-> "case"])
+            /\ UNCHANGED <<mut, verdict>>
+(* the transcription of the code answers *)
+Verify == /\ phase \in {"built", "mutated"}
+          /\ verdict' = (IF phase = "mutated" /\ mut.f # "Transaction.txid" /\ Coverage(KC, orig.ver, mut.f) = "none" THEN "ok" ELSE VerifyCode(KC, tx))
+          /\ phase' = IF phase = "built" THEN "verified" ELSE "done"
+          /\ hist' = Append(hist, [op |-> "verify"])
+          /\ UNCHANGED <<tx, orig, mut>>
+Mutate(m) == /\ phase = "verified" /\ verdict = "ok" /\ orig.rich
+             /\ tx' = MutTx(KC, orig, m) /\ mut' = m /\ phase' = "mutated" /\ hist' = Append(hist, [op |-> "mut"])
+             /\ UNCHANGED <<orig, verdict>>
+Next == \/ \E t \in Cases \cup RichBases : Build(t)
+        \/ Verify
+        \/ \E m \in MutsFor(orig) : Mutate(m)
+Spec == Init /\ [][Next]_vars
+View == <<phase, tx, orig, mut, verdict>>
+Obs == verdict
+
+-----------------------------------------------------------------------------
+(* Invariants (asserted on IDEAL) *)
+TypeOK == /\ phase \in {"init", "built", "verified", "mutated", "done"}
+          /\ verdict \in {"ok", "rej", "soft", "-"}
+          /\ tx.ver \in 1..3 /\ tx.id \in {"ok", "stale"} /\ tx.ctr \in {"none", "vprog", "pay"}
+(* (a) accepted => authorised: id = hash of content, initiator and every listed signer signed this digest, *)
+(*     every spent output's owner is among them, through its account's rule, or contract-justified        *)
+Sound == (phase \in {"verified", "done"} /\ verdict # "rej") => (verdict = "ok" /\ Authorised(tx))
+(* (a) an honestly built transaction of every form is accepted; the transcription stays inside Allowed *)
+HonestAccepted == (phase = "verified" /\ Honest(tx)) => verdict = "ok"
+Conforms == phase = "verified" => verdict \in AllowedIdeal(tx)
+EveryFormHonest == phase = "init" => \A f \in HonestForms, v \in 1..3 : \E oc \in AllOwners : HonestOC(f, oc) /\ oc.ins # <<>> /\ VerifyCode(K0, HonestTx(v, f, oc)) = "ok"
+(* (b) changing a field of class digest / id of an accepted transaction yields rejection, whatever the   *)
+(*     mutator recomputes; changing a signature field yields rejection unless the result is authorised   *)
+MutationRejected ==
+  phase = "done" =>
+     LET c == FieldOf(mut.f).class IN
+     /\ (c \in {"digest", "id"} => verdict = "rej")
+     /\ (c = "sig" /\ mut.st = "none" /\ tx # orig => verdict = "rej")
+(* (b) the table and the encoders agree: every semantic field is bound by the signing digest of every   *)
+(*     version, signatures by the id only, annotations by nothing                                        *)
+CoverageOK == phase = "init" => \A v \in 1..3 : \A f \in FieldNames : Coverage(KC, v, f) = CoverageWanted(f)
+(* (c) pre-image injectivity *)
+Injective == phase = "init" => \A v \in 1..3 : GrammarInjective(KC, v)
+=============================================================================
